@@ -62,8 +62,13 @@ Proof.
     + exists v. split; [exact Hv|]. split; [apply shape_first; auto|].
       destruct (pm_varlength pm).
       * apply rbind_ok in Hvl. destruct Hvl as [d [Hd Hvl]]. apply expect_array_ok in Hd.
-        apply rbind_ok in Hvl. destruct Hvl as [[] [H1 H2]]. apply guard_ok in H1, H2.
-        apply dtype_eqb_true in H1, H2. split; [exact H1|]. exists d. auto.
+        apply rbind_ok in Hvl. destruct Hvl as [[] [H1 Hvl]]. apply guard_ok in H1.
+        apply rbind_ok in Hvl. destruct Hvl as [[] [Hn2 Hvl]]. apply guard_ok in Hn2.
+        apply rbind_ok in Hvl. destruct Hvl as [[] [Hn1 H2]]. apply guard_ok in Hn1, H2.
+        apply dtype_eqb_true in H1, H2. split; [exact H1|]. split.
+        -- unfold ndim in Hn2. destruct (a_shape v) as [|n0 [|w0 [|? ?]]]; try discriminate. eauto.
+        -- exists d. split; [exact Hd|]. split; [exact H2|].
+           unfold ndim in Hn1. destruct (a_shape d) as [|k0 [|? ?]]; try discriminate. eauto.
       * apply rbind_ok in Hvl. destruct Hvl as [[] [H1 H2]]. apply guard_ok in H1, H2.
         apply dtype_eqb_true in H1. split; [exact H1|]. apply negb_true_iff in H2. apply ahas_false. exact H2.
     + destruct (ahas path_MISSING ch) eqn:Em.
@@ -81,8 +86,11 @@ Proof.
     apply rbind_ok. exists tt. split; [apply guard_ok; exact Hnd|].
     apply rbind_ok. exists tt. split.
     + destruct (pm_varlength pm).
-      * destruct Hvl as [H1 [d [Hd H2]]]. apply rbind_ok. exists d. split; [apply expect_array_ok; exact Hd|].
-        apply rbind_ok. exists tt. split; apply guard_ok; apply dtype_eqb_true; auto.
+      * destruct Hvl as [H1 [[n2 [w2 Hs2]] [d [Hd [H2 [k1 Hs1]]]]]]. apply rbind_ok. exists d. split; [apply expect_array_ok; exact Hd|].
+        apply rbind_ok. exists tt. split; [apply guard_ok; apply dtype_eqb_true; exact H1|].
+        apply rbind_ok. exists tt. split; [apply guard_ok; unfold ndim; rewrite Hs2; reflexivity|].
+        apply rbind_ok. exists tt. split; [apply guard_ok; unfold ndim; rewrite Hs1; reflexivity|].
+        apply guard_ok. apply dtype_eqb_true. exact H2.
       * destruct Hvl as [H1 H2]. apply rbind_ok. exists tt. split; apply guard_ok; [apply dtype_eqb_true; auto|].
         apply negb_true_iff. apply ahas_false. exact H2.
     + apply rbind_ok. exists tt. split; [apply guard_ok; exact Hlen|].
